@@ -54,9 +54,21 @@ def run(ctx):
                "LAPACK symmetric solvers return orthonormal eigenvectors and real eigenvalues (library fact)",
                "python ast reflects the code that runs")
 
-    # ------------------------------------------------------------------ D2 internal_tridiagonalizer (one level, recursion summarised)
-    for n in (2, 3, 4):
-        house, rec = [], []
+    # ------------------------------------------------------------------ D2 internal_tridiagonalizer
+    # Structure-agnostic (recursive or iterative formulation): only householder_matrix is replaced, by a matrix of fresh generic
+    # symbols per call (no unitarity assumed).  Reference: B_0 = A; for k = 0..n-2 the k-th reflector H_k must be built from the
+    # current sub-column B_k[k+1:, k] and the unit vector e1, P_k = diag(I_{k+1}, H_k), B_{k+1} = P_k B_k P_k^H, P = P_{n-2} ... P_0.
+    def embed_at(Hs, off, n):
+        E = mk((n, n), "quat")
+        for i in range(n):
+            E[i, i] = SQ(1)
+        for i in range(Hs.shape[0]):
+            for j in range(Hs.shape[1]):
+                E[off + i, off + j] = Hs[i, j]
+        return E
+
+    for n in ((2, 3, 4) if ctx.thorough else (2, 3)):
+        house = []
 
         def s_house(it, a, v, house=house):
             m = a.shape[0]
@@ -64,19 +76,7 @@ def run(ctx):
             house.append((a.copy(), v, Hs))
             return Hs
 
-        depth = [0]
-
-        def s_rec(it, Ain, rec=rec, depth=depth):
-            if depth[0] == 0:
-                depth[0] += 1
-                return FALLTHROUGH
-            m = Ain.shape[0]
-            Qs, Bs = sym_quat(f"q{len(rec)}_", (m, m)), sym_quat(f"bs{len(rec)}_", (m, m))
-            rec.append((Ain.copy(), Qs, Bs))
-            return Qs, Bs
-
-        it, d = new_interp(ctx, summaries={"decomp.tridiagonalize:householder_matrix": s_house,
-                                           "decomp.tridiagonalize:internal_tridiagonalizer": s_rec})
+        it, d = new_interp(ctx, summaries={"decomp.tridiagonalize:householder_matrix": s_house})
         A = sym_quat("a", (n, n))
         A0 = A.copy()
         st, out = run_guarded(lambda: it.run(f_int, [A]))
@@ -87,36 +87,51 @@ def run(ctx):
             continue
         Pm, Bm = out
         ok, why = True, ""
-        if len(house) != 1:
-            ok, why = False, f"{len(house)} reflectors built at one level"
-        else:
-            a, v, Hs = house[0]
-            e1 = [P(x) for x in v.reshape(-1)]
-            if not arrays_same(a, A0[1:, 0]):
-                ok, why = False, "reflector is not built from the sub-column A[1:, 0]"
-            elif not (len(e1) == n - 1 and e1[0].same(1) and all(x.is_zero() for x in e1[1:])):
-                ok, why = False, "reflector target is not e1"
+        if len(house) != n - 1:
+            ok, why = False, f"{len(house)} reflectors built for n={n} (expected {n - 1}: one per column)"
+        # reference (the mathematical recursion; the code may be recursive or iterative):
+        #   T(M): P1 = diag(1, H(M[1:,0], e1)), B1 = P1 M P1^H; r == 2 -> (P1, B1); else (Qs, Bs) = T(B1[1:,1:]),
+        #   P = diag(1, Qs) P1, B = B1 with its trailing block replaced by Bs.   (That the first row / column of B1 need no update
+        #   relies on the reflector annihilating M[2:,0] - the numerical clause of D5, not assumed here and not contradicted.)
+        state = {"k": 0, "ok": True, "why": ""}
+
+        def T(M):
+            r = M.shape[0]
+            k = state["k"]
+            if k >= len(house):
+                state["ok"], state["why"] = False, "fewer reflectors than levels"
+                return None, None
+            a_k, v_k, Hs = house[k]
+            state["k"] += 1
+            e1 = [P(x) for x in (v_k.reshape(-1) if isinstance(v_k, SymArr) else v_k)]
+            if not arrays_same(a_k, M[1:, 0]):
+                state["ok"], state["why"] = False, f"reflector {k} is not built from the sub-column M[1:, 0] of the current (trailing) block"
+                return None, None
+            if not (len(e1) == r - 1 and e1[0].same(1) and all(x.is_zero() for x in e1[1:])):
+                state["ok"], state["why"] = False, f"reflector {k} target is not the unit vector e1 of length {r - 1}"
+                return None, None
+            P1 = embed_at(Hs, 1, r)
+            B1 = ref_matmul(ref_matmul(P1, M), ref_hermitian(P1))
+            if r <= 2:
+                return P1, B1
+            Qs, Bs = T(B1[1:, 1:].copy())
+            if Qs is None:
+                return None, None
+            Bfull = B1.copy()
+            Bfull[1:, 1:] = Bs
+            return ref_matmul(embed_at(Qs, 1, r), P1), Bfull
+
+        Pc = Bc = None
         if ok:
-            P1 = diag1(house[0][2], n)
-            B1 = ref_matmul(ref_matmul(P1, A0), ref_hermitian(P1))
-            if n > 2:
-                if len(rec) != 1 or not arrays_same(rec[0][0], B1[1:, 1:]):
-                    ok, why = False, "recursion is not applied to the trailing block B[1:, 1:] of B = P A P^H"
-                else:
-                    Q = diag1(rec[0][1], n)
-                    Pexp = ref_matmul(Q, P1)
-                    Bexp = B1.copy()
-                    Bexp[1:, 1:] = rec[0][2]
-                    if not arrays_same(Pm, Pexp):
-                        ok, why = False, "returned P is not Q*P with Q = diag(1, Q_sub) (accumulation order)"
-                    elif not arrays_same(Bm, Bexp):
-                        ok, why = False, "returned B is not B with its trailing block replaced by B_sub"
-            else:
-                if rec:
-                    ok, why = False, "2x2 input must not recurse"
-                elif not (arrays_same(Pm, P1) and arrays_same(Bm, B1)):
-                    ok, why = False, "B is not P A P^H with P = diag(1, H_sub) / P^H is not the adjoint of the same P"
-        ctx.ob("C08.D2.similarity", tag, ok, why, where=f_int.where, construct="tridiagonalizer bookkeeping", loc=f_int.loc())
+            Pc, Bc = T(A0.copy())
+            ok, why = state["ok"], state["why"]
+        if ok and not arrays_same(Pm, Pc):
+            ok, why = False, "returned P is not Q*P1 with Q = diag(1, Q_sub) at every level (accumulation order / embedding)"
+        if ok and not arrays_same(Bm, Bc):
+            ok, why = False, ("returned B is not P1 M P1^H with its trailing block replaced by the tridiagonalised sub-block, level by level "
+                              "(one-sided update / P^H not the adjoint of the same P / trailing block not written back)")
+        ctx.ob("C08.D2.similarity", tag, ok, why, where=f_int.where, construct="tridiagonalizer bookkeeping", loc=f_int.loc(),
+               detail=short(first_diff(Bm, Bc)) if (not ok and Bc is not None) else None)
         ctx.ob("C08.D2.no-mutation", tag, arrays_same(A, A0), "the input matrix is modified", where=f_int.where,
                construct="internal_tridiagonalizer mutates A", loc=f_int.loc())
 
@@ -242,7 +257,7 @@ def run(ctx):
     _check_householder(ctx, prog)
 
     ctx.require_instances("C08.D1.solver", 3)
-    ctx.require_instances("C08.D2.similarity", 3)
+    ctx.require_instances("C08.D2.similarity", 2)
     ctx.require_instances("C08.D2.backtransform", 3)
     ctx.require_instances("C08.D3.cleanup", 3)
     ctx.require_instances("C08.D4.guards", 6)
